@@ -425,3 +425,221 @@ Proof.
     as [x ->]. sproj.
   rewrite expected_trace_cons. cbn [fst snd expected_trace flat_map]. rewrite app_nil_r. reflexivity.
 Qed.
+
+(* ------------------------------------------------------------------ BeginBlocker: the allocation hook *)
+Definition alloc_args (a : auction) (mi : minfo) (with_refund_map : bool) : list Z :=
+  zN (a_id a) :: enc_map (mi_bidders mi) (mi_alloc mi)
+  ++ (if with_refund_map then enc_map (mi_bidders mi) (mi_refund mi) else [0]).
+
+(* the hook is offered once, before any transfer, with the allocation map whose values are the
+   amounts that pay_out then transfers: one transfer of f u per bidder u with f u <> 0, in order *)
+Lemma allocate_ok : forall s a mi w s',
+  allocate s a mi w = Ok s' ->
+  no_veto s H_BeforeAllocated = true /\
+  nobank (with_trace s (st_trace s ++ all_calls s H_BeforeAllocated (alloc_args a mi w))) s' /\
+  st_xfers s' = st_xfers s ++ payouts (Escrow Selling (a_id a)) (a_sell_denom a) (mi_bidders mi) (mi_alloc mi) /\
+  (forall u, In u (mi_bidders mi) -> 0 <= mi_alloc mi u).
+Proof.
+  intros s a mi w s' H. unfold allocate in H.
+  apply bind_ok_inv in H as [s1 [H1 H]]. apply call_hook_ok_inv in H1 as [Hn ->].
+  split; [exact Hn|]. split; [eapply pay_out_ok; exact H|].
+  apply pay_out_xfers in H as [Hx Hp]. split; [exact Hx | exact Hp].
+Qed.
+
+Lemma refund_selling_ok : forall s a s', refund_selling s a = Ok s' ->
+  nobank s s' /\ exists r, st_xfers s' = st_xfers s ++ r /\ (length r <= 1)%nat.
+Proof.
+  intros s a s' H. unfold refund_selling in H. split; [eapply send_ok; exact H|].
+  apply send_xfers in H as [Hx _]. eexists. split; [exact Hx|].
+  destruct (_ =? 0); cbn; lia.
+Qed.
+
+Lemma apply_vesting_ok : forall s a s', apply_vesting s a = Ok s' ->
+  st_trace s' = st_trace s /\ st_listeners s' = st_listeners s /\
+  exists r, st_xfers s' = st_xfers s ++ r /\ (length r <= 1)%nat.
+Proof.
+  intros s a s' H. unfold apply_vesting in H.
+  destruct (a_scheds a) as [|v vs].
+  - apply bind_ok_inv in H as [s1 [H1 H]]. injection H as <-. sproj.
+    pose proof (send_ok _ _ _ _ _ _ H1) as Hnb. apply send_xfers in H1 as [Hx _].
+    split; [apply (nb_trace _ _ Hnb)|]. split; [apply (nb_listeners _ _ Hnb)|].
+    eexists. split; [exact Hx|]. destruct (_ =? 0); cbn; lia.
+  - apply bind_ok_inv in H as [s1 [H1 H]]. injection H as <-. sproj.
+    pose proof (send_ok _ _ _ _ _ _ H1) as Hnb. apply send_xfers in H1 as [Hx _].
+    split; [apply (nb_trace _ _ Hnb)|]. split; [apply (nb_listeners _ _ Hnb)|].
+    eexists. split; [exact Hx|]. destruct (_ =? 0); cbn; lia.
+Qed.
+
+Lemma close_fixed_hooks : forall s a s',
+  close_fixed s a = Ok s' ->
+  let mi := calc_fixed a (bids_of s (a_id a)) in
+  st_trace s' = st_trace s ++ expected_trace s [(H_BeforeAllocated, alloc_args a mi false)] /\
+  exists rest, st_xfers s' = st_xfers s
+      ++ payouts (Escrow Selling (a_id a)) (a_sell_denom a) (mi_bidders mi) (mi_alloc mi) ++ rest
+    /\ (length rest <= 2)%nat.
+Proof.
+  intros s a s' H mi. unfold close_fixed in H. fold mi in H.
+  apply bind_ok_inv in H as [s1 [H1 H]]. apply bind_ok_inv in H as [s2 [H2 H]].
+  apply allocate_ok in H1 as [_ [Hnb1 [Hx1 _]]].
+  apply refund_selling_ok in H2 as [Hnb2 [r2 [Hx2 Hl2]]].
+  apply apply_vesting_ok in H as [Ht3 [_ [r3 [Hx3 Hl3]]]].
+  split.
+  - rewrite Ht3, (nb_trace _ _ Hnb2), (nb_trace _ _ Hnb1). sproj.
+    rewrite expected_trace_cons. cbn [fst snd expected_trace flat_map]. rewrite app_nil_r. reflexivity.
+  - exists (r2 ++ r3). split; [|rewrite app_length; lia].
+    rewrite Hx3, Hx2, Hx1, <- !app_assoc. reflexivity.
+Qed.
+
+Lemma settle_batch_hooks : forall s a mi s',
+  settle_batch s a mi = Ok s' ->
+  st_trace s' = st_trace s ++ expected_trace s [(H_BeforeAllocated, alloc_args a mi true)] /\
+  (forall u, In u (mi_bidders mi) -> 0 <= mi_alloc mi u /\ 0 <= mi_refund mi u) /\
+  exists r1 r2, st_xfers s' = st_xfers s
+      ++ payouts (Escrow Selling (a_id a)) (a_sell_denom a) (mi_bidders mi) (mi_alloc mi) ++ r1
+      ++ payouts (Escrow Paying (a_id a)) (a_pay_denom a) (mi_bidders mi) (mi_refund mi) ++ r2
+    /\ (length r1 <= 1)%nat /\ (length r2 <= 1)%nat.
+Proof.
+  intros s a mi s' H. unfold settle_batch in H.
+  apply bind_ok_inv in H as [s1 [H1 H]]. apply bind_ok_inv in H as [s2 [H2 H]].
+  apply bind_ok_inv in H as [s3 [H3 H]].
+  apply allocate_ok in H1 as [_ [Hnb1 [Hx1 Hp1]]].
+  apply refund_selling_ok in H2 as [Hnb2 [r2 [Hx2 Hl2]]].
+  pose proof (pay_out_ok _ _ _ _ _ _ H3) as Hnb3. apply pay_out_xfers in H3 as [Hx3 Hp3].
+  apply apply_vesting_ok in H as [Ht4 [_ [r4 [Hx4 Hl4]]]].
+  split; [|split].
+  - rewrite Ht4, (nb_trace _ _ Hnb3), (nb_trace _ _ Hnb2), (nb_trace _ _ Hnb1). sproj.
+    rewrite expected_trace_cons. cbn [fst snd expected_trace flat_map]. rewrite app_nil_r. reflexivity.
+  - intros u Hu. split; [apply Hp1 | apply Hp3]; exact Hu.
+  - exists r2, r4. split; [|split; assumption].
+    rewrite Hx4, Hx3, Hx2, Hx1, <- !app_assoc. reflexivity.
+Qed.
+
+(* ------------------------------------------------------------------ all transactions at once *)
+Lemma update_params_ok : forall s auth cfee bfee period s',
+  update_params s auth cfee bfee period = Ok s' -> exists p, s' = with_params s p.
+Proof.
+  intros s auth cfee bfee period s' H. unfold update_params in H.
+  destruct auth as [|[up u|]]; try discriminate.
+  destruct (check_coins cfee None); [|discriminate]. destruct (check_coins bfee None); [|discriminate].
+  injection H as <-. eexists. reflexivity.
+Qed.
+
+(* what an accepted message leaves behind, per message kind: the stored record and the hook calls
+   made with exactly that record's values *)
+Definition site_spec (s : state) (c : cmsg) (s' : state) : Prop :=
+  match c with
+  | CCreateFixed _ _ _ _ _ _ _ _ _ =>
+      exists a, st_auctions s' = st_auctions s ++ [a] /\ a_id a = st_aseq s /\ a_type a = FixedPrice /\
+        st_trace s' = st_trace s ++ expected_trace s [(H_BeforeFixedCreated, enc_auction_args a);
+                                                      (H_AfterFixedCreated, zN (a_id a) :: enc_auction_args a)]
+  | CCreateBatch _ _ _ _ _ _ _ _ _ _ _ _ =>
+      exists a, st_auctions s' = st_auctions s ++ [a] /\ a_id a = st_aseq s /\ a_type a = Batch /\
+        st_trace s' = st_trace s ++ expected_trace s [(H_BeforeBatchCreated, enc_auction_args a);
+                                                      (H_AfterBatchCreated, zN (a_id a) :: enc_auction_args a)]
+  | CCancel u up id =>
+      st_trace s' = st_trace s ++ expected_trace s [(H_BeforeCanceled, zN id :: enc_addr_str (AGood up u))]
+  | CPlaceBid u id bt price d amt =>
+      exists b, st_bids s' = st_bids s ++ [b] /\
+        b_auction b = id /\ b_bidder b = u /\ b_id b = (st_bseq s id + 1)%N /\ b_type b = bt /\
+        b_price b = price /\ b_denom b = d /\ b_amt b = amt /\
+        st_trace s' = st_trace s ++ expected_trace s [(H_BeforeBidPlaced, enc_bid_args b)]
+  | CModifyBid u id bid_id price d amt =>
+      exists b, find_bid s id bid_id = Some b /\
+        st_bids s' = st_bids (put_bid s (set_b_terms b price amt)) /\
+        st_trace s' = st_trace s ++ expected_trace s [(H_BeforeBidModified, enc_bid_args (set_b_terms b price amt))]
+  | CAddAllowed a ea up u max =>
+      st_trace s' = st_trace s ++ expected_trace s [(H_BeforeAllowedAdded, enc_entries [(ea, AGood up u, max)])]
+  | CUpdateParams _ _ _ _ => st_trace s' = st_trace s
+  end.
+
+Theorem handle_sites : forall s c s', handle s c = Ok s' -> site_spec s c s'.
+Proof.
+  intros s c s' H. destruct c; cbn [handle] in H; cbn [site_spec].
+  - eapply create_fixed_hooks; exact H.
+  - eapply create_batch_hooks; exact H.
+  - eapply cancel_hooks; exact H.
+  - eapply place_bid_hooks; exact H.
+  - eapply modify_bid_hooks; exact H.
+  - destruct (st_switch s); [|discriminate]. apply api_add_hooks in H as [H _]. exact H.
+  - apply update_params_ok in H as [p ->]. reflexivity.
+Qed.
+
+Theorem accepted_tx_sites : forall s m,
+  fst (step s (OTx m)) = Accepted ->
+  exists c, check_basic m = Some c /\ handle s c = Ok (snd (step s (OTx m)))
+            /\ site_spec s c (snd (step s (OTx m))).
+Proof.
+  intros s m H. cbn [step] in *. unfold deliver_tx in *.
+  destruct (check_basic m) as [c|]; [|discriminate]. exists c. split; [reflexivity|].
+  destruct (handle s c) as [s'|code tr] eqn:Hh; cbn [commit fst snd] in *; [|discriminate].
+  split; [reflexivity | apply handle_sites; exact Hh].
+Qed.
+
+Theorem accepted_api_add_sites : forall s id l,
+  fst (step s (OApiAdd id l)) = Accepted ->
+  st_trace (snd (step s (OApiAdd id l))) = st_trace s ++ expected_trace s [(H_BeforeAllowedAdded, enc_entries l)].
+Proof.
+  intros s id l H. cbn [step] in *.
+  destruct (api_add s id l) as [s'|code tr] eqn:Hh; cbn [commit fst snd] in *; [|discriminate].
+  apply api_add_hooks in Hh as [Hh _]. exact Hh.
+Qed.
+
+Theorem accepted_api_update_sites : forall s id u max,
+  fst (step s (OApiUpdate id u max)) = Accepted ->
+  exists m, max = Some m /\
+    st_trace (snd (step s (OApiUpdate id u max)))
+    = st_trace s ++ expected_trace s [(H_BeforeAllowedUpdated, [zN id; zN u; m])].
+Proof.
+  intros s id u max H. cbn [step] in *.
+  destruct (api_update s id u max) as [s'|code tr] eqn:Hh; cbn [commit fst snd] in *; [|discriminate].
+  apply api_update_hooks in Hh. exact Hh.
+Qed.
+
+(* ------------------------------------------------------------------ 5. operations without hooks *)
+Lemma with_trace_same' : forall s, with_trace s (st_trace s) = s.
+Proof. intros s. destruct s; reflexivity. Qed.
+
+Theorem send_no_hooks : forall s from to d amt, st_trace (snd (step s (OSend from to d amt))) = st_trace s.
+Proof.
+  intros s from to d amt. cbn [step]. destruct (0 <? amt); [|reflexivity].
+  pose proof (send_err s (User from) to d amt) as He.
+  destruct (send s (User from) to d amt) as [s'|c tr] eqn:Hs; cbn [commit snd].
+  - apply send_ok in Hs. apply (nb_trace _ _ Hs).
+  - destruct He as [-> _]. reflexivity.
+Qed.
+
+Theorem set_listeners_no_hooks : forall s ls, st_trace (snd (step s (OSetListeners ls))) = st_trace s.
+Proof. reflexivity. Qed.
+
+Lemma import_bids_trace : forall l s0 s1, import_bids s0 l = Some s1 -> st_trace s1 = st_trace s0.
+Proof.
+  induction l as [|b r IH]; intros s0 s1 H; cbn [import_bids] in H.
+  - injection H as <-. reflexivity.
+  - destruct (find_auction s0 (b_auction b)); [|discriminate]. apply IH in H. exact H.
+Qed.
+
+Lemma import_vqs_trace : forall l s0 s1, import_vqs s0 l = Some s1 -> st_trace s1 = st_trace s0.
+Proof.
+  induction l as [|v r IH]; intros s0 s1 H; cbn [import_vqs] in H.
+  - injection H as <-. reflexivity.
+  - destruct (find_auction s0 (v_auction v)); [|discriminate]. apply IH in H. exact H.
+Qed.
+
+Lemma fold_put_allowed_trace : forall (l : list allowed) s0,
+  st_trace (fold_left (fun s x => put_allowed s (al_auction x) (al_bidder x) (al_max x)) l s0) = st_trace s0.
+Proof.
+  induction l as [|x r IH]; intros s0; cbn [fold_left]; [reflexivity|].
+  rewrite IH. destruct (put_allowed_shape s0 (al_auction x) (al_bidder x) (al_max x)) as [y ->]. reflexivity.
+Qed.
+
+Theorem genesis_no_hooks : forall s, st_trace (snd (step s OGenesis)) = st_trace s.
+Proof.
+  intros s. cbn [step]. destruct (genesis_roundtrip s) as [[v s']|] eqn:Hg; cbn [snd]; [|reflexivity].
+  unfold genesis_roundtrip in Hg. destruct (import s (export s)) as [s2|] eqn:Hi; [|discriminate].
+  injection Hg as _ <-. unfold import in Hi.
+  destruct (import_auctions (g_auctions (export s)) 0%N) as [aus seq].
+  match type of Hi with context [import_bids ?x ?l] => destruct (import_bids x l) as [s1|] eqn:Hb; [|discriminate] end.
+  match type of Hi with context [import_vqs ?x ?l] => destruct (import_vqs x l) as [s3|] eqn:Hv; [|discriminate] end.
+  injection Hi as <-. apply import_vqs_trace in Hv. apply import_bids_trace in Hb.
+  sproj. sproj_in Hv. rewrite Hv, Hb, fold_put_allowed_trace. reflexivity.
+Qed.
